@@ -32,28 +32,51 @@ impl Fam {
     fn name(self) -> &'static str { match self { Fam::V4 => "v4", Fam::V6 => "v6", Fam::As => "as" } }
 }
 
-/// Atom universes: 8 atoms per family.
-fn atom(f: Fam, i: u32) -> (u128, u128) {
-    match f {
-        Fam::V4 => ((i as u128) << 29, (((i as u128) + 1) << 29) - 1),
-        Fam::V6 => ((i as u128) << 125, if i == 7 { u128::MAX } else { (((i as u128) + 1) << 125) - 1 }),
-        Fam::As => {
-            let v = [0u128, 1, 2, 3, 64512, 64513, 0xFFFF_FFFE, 0xFFFF_FFFF][i as usize];
-            (v, v)
-        }
-    }
+/// Atom universes: up to 8 atoms per universe.
+///   *p  (V4p, V6p): the eight /3 prefixes (prefix-expressible blocks)
+///   V4, V6, As   : a PARTITION of the whole number space with single-value atoms at both
+///                  ends and in the middle, so that "everything but one address/ASN" and
+///                  blocks touching 0 / MAX are subsets of the universe
+///   AsS          : eight isolated single ASNs (adjacent and non-adjacent)
+#[derive(Clone, Copy, PartialEq, Eq, Debug)]
+enum Uni { V4p, V6p, V4, V6, As, AsS }
+
+impl Uni {
+    fn fam(self) -> Fam { match self { Uni::V4p | Uni::V4 => Fam::V4, Uni::V6p | Uni::V6 => Fam::V6, Uni::As | Uni::AsS => Fam::As } }
+    fn name(self) -> &'static str { match self { Uni::V4p => "v4.prefixes", Uni::V6p => "v6.prefixes", Uni::V4 => "v4.partition", Uni::V6 => "v6.partition", Uni::As => "as.partition", Uni::AsS => "as.sparse" } }
+    fn default_for(f: Fam) -> Uni { match f { Fam::V4 => Uni::V4p, Fam::V6 => Uni::V6p, Fam::As => Uni::AsS } }
 }
 
-fn ranges_of(f: Fam, mask: u32, natoms: u32) -> Vec<(u128, u128)> {
-    (0..natoms).filter(|i| mask & (1 << i) != 0).map(|i| atom(f, i)).collect()
+fn partition(bounds: [u128; 8], max: u128) -> Vec<(u128, u128)> {
+    (0..8).map(|i| (bounds[i], if i == 7 { max } else { bounds[i + 1] - 1 })).collect()
 }
+
+fn atoms(u: Uni, n: u32) -> Vec<(u128, u128)> {
+    let v4max = u32::MAX as u128;
+    let all: Vec<(u128, u128)> = match u {
+        Uni::V4p => (0..8u128).map(|i| (i << 29, ((i + 1) << 29) - 1)).collect(),
+        Uni::V6p => (0..8u128).map(|i| (i << 125, if i == 7 { u128::MAX } else { ((i + 1) << 125) - 1 })).collect(),
+        Uni::V4 => partition([0, 1, 1 << 29, 1 << 31, (1 << 31) + 1, 3 << 30, v4max - 1, v4max], v4max),
+        Uni::V6 => partition([0, 1, 1 << 125, 1 << 127, (1 << 127) + 1, 3 << 126, u128::MAX - 1, u128::MAX], u128::MAX),
+        Uni::As => partition([0, 1, 2, 64512, 64513, 1 << 31, v4max - 1, v4max], v4max),
+        Uni::AsS => [0u128, 1, 2, 3, 64512, 64513, 0xFFFF_FFFE, 0xFFFF_FFFF].iter().map(|v| (*v, *v)).collect(),
+    };
+    all.into_iter().take(n as usize).collect()
+}
+
+fn atom(f: Fam, i: u32) -> (u128, u128) { atoms(Uni::default_for(f), 8)[i as usize] }
+
+fn ranges_in(at: &[(u128, u128)], mask: u32) -> Vec<(u128, u128)> {
+    at.iter().enumerate().filter(|(i, _)| mask & (1 << i) != 0).map(|(_, a)| *a).collect()
+}
+
+fn ranges_of(f: Fam, mask: u32, natoms: u32) -> Vec<(u128, u128)> { ranges_in(&atoms(Uni::default_for(f), natoms), mask) }
 
 /// Maps a library result to a bitmask by membership queries on every atom,
 /// and checks that nothing outside the universe is contained.
-fn mask_of_ip(f: Fam, b: &IpBlocks, natoms: u32) -> Result<u32, String> {
+fn mask_ip_in(f: Fam, b: &IpBlocks, at: &[(u128, u128)]) -> Result<u32, String> {
     let mut m = 0;
-    for i in 0..natoms {
-        let (lo, hi) = atom(f, i);
+    for (i, &(lo, hi)) in at.iter().enumerate() {
         let blk = ip_blocks(if f == Fam::V4 { 32 } else { 128 }, &[(lo, hi)]).iter().next().unwrap();
         let c = b.contains_block(blk);
         let x = b.intersects_block(blk);
@@ -64,37 +87,53 @@ fn mask_of_ip(f: Fam, b: &IpBlocks, natoms: u32) -> Result<u32, String> {
     for blk in b.iter() {
         let (mn, mx) = (blk.min().to_bits(), blk.max().to_bits());
         let (mn, mx) = if f == Fam::V4 { (mn >> 96, mx >> 96) } else { (mn, mx) };
-        let ok_lo = (0..natoms).any(|i| atom(f, i).0 == mn);
-        let ok_hi = (0..natoms).any(|i| atom(f, i).1 == mx);
+        let ok_lo = at.iter().any(|a| a.0 == mn);
+        let ok_hi = at.iter().any(|a| a.1 == mx);
         if !ok_lo || !ok_hi { return Err(format!("block {mn:#x}-{mx:#x} ends outside atom boundaries")) }
     }
     Ok(m)
 }
 
-fn mask_of_as(b: &AsBlocks, natoms: u32) -> Result<u32, String> {
+fn mask_as_in(b: &AsBlocks, at: &[(u128, u128)]) -> Result<u32, String> {
     let mut m: u32 = 0;
-    for i in 0..natoms {
-        if b.contains_asn(Asn::from_u32(atom(Fam::As, i).0 as u32)) { m |= 1 << i }
+    for (i, &(lo, hi)) in at.iter().enumerate() {
+        let c = [lo, hi, lo + (hi - lo) / 2].map(|v| b.contains_asn(Asn::from_u32(v as u32)));
+        if c[0] != c[1] || c[0] != c[2] { return Err(format!("atom {i} partially covered")) }
+        if c[0] { m |= 1 << i }
     }
-    let mut count = 0u64;
+    // every stored block must be a union of whole atoms of the universe
+    let mut covered: u32 = 0;
     for blk in b.iter() {
-        let (mn, mx) = (blk.min().into_u32() as u64, blk.max().into_u32() as u64);
-        if mx < mn || mx - mn > 8 { return Err(format!("block AS{mn}-AS{mx} is not a union of atoms")) }
-        for v in mn..=mx {
-            if !(0..natoms).any(|i| atom(Fam::As, i).0 == v as u128) { return Err(format!("AS{v} outside the universe is contained")) }
-            count += 1;
+        let (mn, mx) = (blk.min().into_u32() as u128, blk.max().into_u32() as u128);
+        if mx < mn { return Err(format!("inverted block AS{mn}-AS{mx}")) }
+        let Some(first) = at.iter().position(|a| a.0 == mn) else { return Err(format!("block AS{mn}-AS{mx} starts outside atom boundaries")) };
+        let mut i = first; let mut pos = mn;
+        loop {
+            if at[i].0 != pos { return Err(format!("block AS{mn}-AS{mx} covers ASNs outside the universe")) }
+            covered |= 1 << i;
+            if at[i].1 == mx { break }
+            if at[i].1 > mx { return Err(format!("block AS{mn}-AS{mx} ends outside atom boundaries")) }
+            pos = at[i].1 + 1; i += 1;
+            if i >= at.len() { return Err(format!("block AS{mn}-AS{mx} covers ASNs outside the universe")) }
         }
     }
-    if count != m.count_ones() as u64 { return Err(format!("blocks hold {count} ASNs, membership says {}", m.count_ones())) }
+    if covered != m { return Err(format!("blocks cover atoms {covered:#x}, membership says {m:#x}")) }
     Ok(m)
 }
 
-fn result_mask(f: Fam, rc: &ResourceCert, natoms: u32) -> Result<u32, String> {
+fn mask_of_ip(f: Fam, b: &IpBlocks, natoms: u32) -> Result<u32, String> { mask_ip_in(f, b, &atoms(Uni::default_for(f), natoms)) }
+fn mask_of_as(b: &AsBlocks, natoms: u32) -> Result<u32, String> { mask_as_in(b, &atoms(Uni::AsS, natoms)) }
+
+fn result_mask_in(f: Fam, rc: &ResourceCert, at: &[(u128, u128)]) -> Result<u32, String> {
     match f {
-        Fam::V4 => mask_of_ip(f, rc.v4_resources(), natoms),
-        Fam::V6 => mask_of_ip(f, rc.v6_resources(), natoms),
-        Fam::As => mask_of_as(rc.as_resources(), natoms),
+        Fam::V4 => mask_ip_in(f, rc.v4_resources(), at),
+        Fam::V6 => mask_ip_in(f, rc.v6_resources(), at),
+        Fam::As => mask_as_in(rc.as_resources(), at),
     }
+}
+
+fn result_mask(f: Fam, rc: &ResourceCert, natoms: u32) -> Result<u32, String> {
+    result_mask_in(f, rc, &atoms(Uni::default_for(f), natoms))
 }
 
 #[derive(Clone, Copy, PartialEq, Eq, Debug)]
@@ -105,6 +144,14 @@ fn claim_of(f: Fam, c: LeafClaim, natoms: u32) -> Claim {
         LeafClaim::Missing => Claim::Missing,
         LeafClaim::Inherit => Claim::Inherit,
         LeafClaim::Blocks(m) => Claim::Blocks(ranges_of(f, m, natoms)),
+    }
+}
+
+fn claim_in(at: &[(u128, u128)], c: LeafClaim) -> Claim {
+    match c {
+        LeafClaim::Missing => Claim::Missing,
+        LeafClaim::Inherit => Claim::Inherit,
+        LeafClaim::Blocks(m) => Claim::Blocks(ranges_in(at, m)),
     }
 }
 
@@ -128,13 +175,32 @@ fn res_with(f: Fam, c: Claim, filler: &Res) -> Res {
 
 fn mode_name(m: Overclaim) -> &'static str { match m { Overclaim::Refuse => "refuse", Overclaim::Trim => "trim" } }
 
-fn validate(kind: Kind, cert: Cert, issuer: &ResourceCert, strict: bool, t: i64) -> Result<Option<ResourceCert>, String> {
+fn tns(secs: i64, ns: u32) -> rpki::repository::x509::Time { rpki::repository::x509::Time::new(chrono::DateTime::from_timestamp(secs, ns).unwrap()) }
+
+fn validate(kind: Kind, cert: Cert, issuer: &ResourceCert, strict: bool, t: rpki::repository::x509::Time) -> Result<Option<ResourceCert>, String> {
     match kind {
-        Kind::Ca => cert.validate_ca_at(issuer, strict, time(t)).map(Some).map_err(|e| e.to_string()),
-        Kind::Ee => cert.validate_ee_at(issuer, strict, time(t)).map(Some).map_err(|e| e.to_string()),
-        Kind::Router => cert.validate_router_at(issuer, strict, time(t)).map(|_| None).map_err(|e| e.to_string()),
-        Kind::Ta => cert.validate_ta_at(tal(), strict, time(t)).map(Some).map_err(|e| e.to_string()),
+        Kind::Ca => cert.validate_ca_at(issuer, strict, t).map(Some).map_err(|e| e.to_string()),
+        Kind::Ee => cert.validate_ee_at(issuer, strict, t).map(Some).map_err(|e| e.to_string()),
+        Kind::Router => cert.validate_router_at(issuer, strict, t).map(|_| None).map_err(|e| e.to_string()),
+        Kind::Ta => cert.validate_ta_at(tal(), strict, t).map(Some).map_err(|e| e.to_string()),
     }
+}
+
+/// Evaluation instants around a validity window [nb, na] (whole seconds in the certificate):
+/// (name, inside?, instant) including instants a fraction of a second outside the window.
+fn instants(nb: i64, na: i64) -> Vec<(&'static str, bool, rpki::repository::x509::Time)> {
+    vec![
+        ("nb-1s", false, tns(nb - 1, 0)),
+        ("nb-1ns", false, tns(nb - 1, 999_999_999)),
+        ("nb", true, tns(nb, 0)),
+        ("nb+1ns", true, tns(nb, 1)),
+        ("inside", true, tns((nb + na) / 2, 500_000_000)),
+        ("na-1ns", true, tns(na - 1, 999_999_999)),
+        ("na", true, tns(na, 0)),
+        ("na+1ns", false, tns(na, 1)),
+        ("na+0.999999999s", false, tns(na, 999_999_999)),
+        ("na+1s", false, tns(na + 1, 0)),
+    ]
 }
 
 fn kind_name(k: Kind) -> &'static str { match k { Kind::Ta => "ta", Kind::Ca => "ca", Kind::Ee => "ee", Kind::Router => "router" } }
@@ -148,7 +214,6 @@ fn main() {
     let ta_ski = ta.subject_key_identifier();
 
     //---------------------------------------------------------------- resources per family
-    let natoms: u32 = ctx.tier.pick(7, 8);
     // filler for the two families that do not vary: a fixed non-trivial value
     let filler_issuer = Res {
         v4: Claim::Blocks(vec![(0x0a00_0000, 0x0aff_ffff), (0xc000_0200, 0xc000_02ff)]),
@@ -160,24 +225,29 @@ fn main() {
         v6: Claim::Inherit,
         asn: Claim::Blocks(vec![(64500, 64500)]),
     };
-    for f in [Fam::V4, Fam::V6, Fam::As] {
-        let sp = ctx.space(&format!("resources.{}", f.name()),
-            &format!("TA(all) -> CA with {fam} resources = every subset I of a {natoms}-atom universe -> leaf of kind CA/EE (and router for AS) claiming missing | inherit | every subset S, under refuse and trim; the other two families hold fixed non-trivial values; oracle: accept <=> (refuse => S subset of I), result mask = S | S&I | I | 0, result subset of issuer; non-trivial = (I,S,mode,kind) with S not subset of I or S&I != 0", fam = f.name()));
+    for u in [Uni::As, Uni::V4, Uni::V6, Uni::AsS, Uni::V4p, Uni::V6p] {
+        let f = u.fam();
+        // quick: the partition universes of AS and v4 in full, the others with 6 atoms
+        let natoms: u32 = if ctx.tier.is_thorough() || matches!(u, Uni::As | Uni::V4) { 8 } else { 6 };
+        let at = atoms(u, natoms);
+        let at = &at;
+        let sp = ctx.space(&format!("resources.{}", u.name()),
+            &format!("TA(all) -> CA with {fam} resources = every subset I of a {natoms}-atom universe -> leaf of kind CA/EE (and router for AS) claiming missing | inherit | every subset S, under refuse and trim; the other two families hold fixed non-trivial values; oracle: accept <=> (refuse => S subset of I), result mask = S | S&I | I | 0, result subset of issuer; non-trivial = (I,S,mode,kind) with S not subset of I or S&I != 0", fam = u.name()));
         // issuers: one CA certificate per subset
         let issuers: Vec<(u32, ResourceCert)> = (0..(1u32 << natoms)).into_par_iter().filter_map(|i| {
             // a CA whose varying family would be empty: claim it as "missing" unless others present (always present via filler)
-            let claim = if i == 0 { Claim::Missing } else { Claim::Blocks(ranges_of(f, i, natoms)) };
+            let claim = if i == 0 { Claim::Missing } else { Claim::Blocks(ranges_in(at, i)) };
             let spec = Spec::issued(Kind::Ca, CA_KEY, TA_KEY, ta_ski, res_with(f, claim, &filler_issuer), Overclaim::Refuse);
             let cert = build_cert(&signer, &spec);
             match cert.validate_ca_at(&ta, true, time(T0)) {
                 Ok(rc) => {
-                    match result_mask(f, &rc, natoms) {
+                    match result_mask_in(f, &rc, at) {
                         Ok(m) if m == i => {}
-                        other => ctx.fail("C01.resources.issuer", format!("fam={} I={i:#x}", f.name()), format!("issuer CA result mask {:?}", other)),
+                        other => ctx.fail("C01.resources.issuer", format!("universe={} I={i:#x}", u.name()), format!("issuer CA result mask {:?}", other)),
                     }
                     Some((i, rc))
                 }
-                Err(e) => { ctx.fail("C01.resources.issuer", format!("fam={} I={i:#x}", f.name()), format!("issuer CA under TA(all) rejected: {e}")); None }
+                Err(e) => { ctx.fail("C01.resources.issuer", format!("universe={} I={i:#x}", u.name()), format!("issuer CA under TA(all) rejected: {e}")); None }
             }
         }).collect();
         let ca_ski = signer.ski(CA_KEY);
@@ -191,8 +261,8 @@ fn main() {
         }}}
         leaves.par_iter_mut().for_each(|(k, mode, c, der)| {
             let res = if *k == Kind::Router {
-                Res { v4: Claim::Missing, v6: Claim::Missing, asn: claim_of(f, *c, natoms) }
-            } else { res_with(f, claim_of(f, *c, natoms), &filler_leaf) };
+                Res { v4: Claim::Missing, v6: Claim::Missing, asn: claim_in(at, *c) }
+            } else { res_with(f, claim_in(at, *c), &filler_leaf) };
             *der = build_cert_der(&signer, &Spec::issued(*k, LEAF_KEY, CA_KEY, ca_ski, res, *mode));
         });
         sp.sample_str(|| format!("leaf kind=ee mode=refuse claim=Blocks(0b101) der={}…", &hex(&leaves[3].3)[..64]));
@@ -200,7 +270,7 @@ fn main() {
             let mut oc: BTreeMap<&'static str, u64> = BTreeMap::new();
             let mut nt = 0u64;
             for (k, mode, c, der) in &leaves {
-                let wit = || format!("fam={} kind={} mode={} I={:#x} claim={:?}", f.name(), kind_name(*k), mode_name(*mode), i, c);
+                let wit = || format!("universe={} kind={} mode={} I={:#x} claim={:?}", u.name(), kind_name(*k), mode_name(*mode), i, c);
                 // router certificates must carry AS blocks (not inherit/missing): the profile says so
                 let want = if *k == Kind::Router {
                     match c { LeafClaim::Blocks(_) => model(*i, *c, *mode), _ => None }
@@ -215,7 +285,7 @@ fn main() {
                     }
                 };
                 if let LeafClaim::Blocks(s) = c { if s & !i != 0 || s & i != 0 { nt += 1 } }
-                let got = guard(|| validate(*k, cert, issuer, true, T0));
+                let got = guard(|| validate(*k, cert, issuer, true, time(T0)));
                 match got {
                     Err(p) => ctx.fail("C01.resources.nopanic", wit(), p),
                     Ok(Err(e)) => {
@@ -227,7 +297,7 @@ fn main() {
                         match want {
                             None => ctx.fail("C01.resources.reject", wit(), "library accepts an overclaiming / non-conforming certificate"),
                             Some(w) => if let Some(rc) = rc {
-                                match result_mask(f, &rc, natoms) {
+                                match result_mask_in(f, &rc, at) {
                                     Ok(m) => {
                                         if m != w { ctx.fail("C01.resources.result", wit(), format!("result mask {m:#x}, model {w:#x}")) }
                                         if m & !i != 0 { ctx.fail("C01.resources.subset", wit(), format!("result {m:#x} not inside issuer {i:#x}")) }
@@ -250,7 +320,7 @@ fn main() {
             sp.nontrivial(nt);
             sp.merge_outcomes(&oc);
         });
-        sp.set("atoms", serde_json::json!((0..natoms).map(|i| { let (a, b) = atom(f, i); format!("{a:#x}-{b:#x}") }).collect::<Vec<_>>()));
+        sp.set("atoms", serde_json::json!(at.iter().map(|(a, b)| format!("{a:#x}-{b:#x}")).collect::<Vec<_>>()));
         sp.done(true, &format!("all {} issuer subsets x {} leaf certificates ({} atoms)", issuers.len(), leaves.len(), natoms));
     }
 
@@ -292,7 +362,7 @@ fn main() {
                 let touches = |i: u32, c: &LeafClaim| matches!(c, LeafClaim::Blocks(s) if s & i != 0 || s & !i != 0);
                 if touches(*i4, a) || touches(*i6, b) || touches(*ia, c) { nt += 1 }
                 let cert = Cert::decode(der.as_slice()).expect("decodes");
-                match guard(|| validate(Kind::Ee, cert, issuer, true, T0)) {
+                match guard(|| validate(Kind::Ee, cert, issuer, true, time(T0))) {
                     Err(p) => ctx.fail("C01.combined.nopanic", wit(), p),
                     Ok(Err(e)) => { *oc.entry("rejected").or_insert(0) += 1;
                         if want.is_some() { ctx.fail("C01.combined.accept", wit(), format!("model accepts, library: {e}")) } }
@@ -395,18 +465,18 @@ fn main() {
             spec.signing_key = if sk == 0 { CA_KEY } else { OTHER_KEY };
             let der = build_cert_der(&signer, &spec);
             for (offered_name, offered, offered_key) in [("issuer", &ca, CA_KEY), ("other-ca", &other_ca, OTHER_KEY)] {
-                for (tn, t) in [("nb-1", nb - 1), ("nb", nb), ("inside", T0), ("na", na), ("na+1", na + 1)] {
+                for (tn, t, tt) in instants(nb, na) {
                     sp.eval();
                     let wit = || format!("kind={} aki={} ski={} signed_by={} offered={} t={}", kind_name(kind), ["issuer", "other", "absent"][aki], ["hash", "wrong"][ski], ["issuer", "other"][sk], offered_name, tn);
                     let c_aki = spec.aki == Some(signer.ski(offered_key));
                     let c_ski = ski == 0;
                     let c_sig = spec.signing_key == offered_key;
-                    let c_time = nb <= t && t <= na;
+                    let c_time = t;
                     let nviol = [c_aki, c_ski, c_sig, c_time].iter().filter(|x| !**x).count();
                     if nviol == 1 { sp.nontrivial(1) }
                     let want = nviol == 0;
                     let cert = match Cert::decode(der.as_slice()) { Ok(c) => c, Err(e) => { ctx.fail("C01.relations.decode", wit(), e.to_string()); continue } };
-                    match guard(|| validate(kind, cert, offered, true, t)) {
+                    match guard(|| validate(kind, cert, offered, true, tt)) {
                         Err(p) => ctx.fail("C01.relations.nopanic", wit(), p),
                         Ok(r) => {
                             sp.outcome(if r.is_ok() { "accepted" } else { "rejected" });
@@ -426,7 +496,7 @@ fn main() {
     //---------------------------------------------------------------- trust anchors
     {
         let sp = ctx.space("ta",
-            "self-signed TA: per-family resources {blocks, inherit, missing} (all 27 combinations) x signed by {own key, other key} x AKI {absent, own SKI, other SKI} x SKI {hash, wrong} x 5 instants; oracle: accept <=> self-signature verifies and no family inherits and at least one family present (profile) and AKI absent-or-own and SKI == hash and time inside; non-trivial = exactly one condition violated");
+            "self-signed TA: per-family resources {blocks, inherit, missing} (all 27 combinations) x signed by {own key, other key} x AKI {absent, own SKI, other SKI} x SKI {hash, wrong} x 10 instants (incl. 1 ns outside either end); oracle: accept <=> self-signature verifies and no family inherits and at least one family present (profile) and AKI absent-or-own and SKI == hash and time inside; non-trivial = exactly one condition violated");
         let mut cases = Vec::new();
         for r4 in 0..3 { for r6 in 0..3 { for ra in 0..3 { for sk in 0..2 { for aki in 0..3 { for ski in 0..2 { cases.push((r4, r6, ra, sk, aki, ski)) } } } } } }
         let nb = T0 - 1000; let na = T0 + 1000;
@@ -440,15 +510,15 @@ fn main() {
             if ski == 1 { spec.ski_override = Some(signer.ski(5)) }
             let der = build_cert_der(&signer, &spec);
             let present = [r4, r6, ra].iter().any(|c| *c != 2);
-            for (tn, t) in [("nb-1", nb - 1), ("nb", nb), ("inside", T0), ("na", na), ("na+1", na + 1)] {
+            for (tn, t, tt) in instants(nb, na) {
                 sp.eval();
                 let wit = || format!("res=({r4},{r6},{ra}) [0=blocks,1=inherit,2=missing] signed_by={} aki={} ski={} t={tn}", ["self", "other"][sk], ["absent", "own", "other"][aki], ["hash", "wrong"][ski]);
-                let conds = [sk == 0, ![r4, r6, ra].contains(&1), present, aki != 2, ski == 0, nb <= t && t <= na];
+                let conds = [sk == 0, ![r4, r6, ra].contains(&1), present, aki != 2, ski == 0, t];
                 let nviol = conds.iter().filter(|x| !**x).count();
                 if nviol == 1 { sp.nontrivial(1) }
                 let want = nviol == 0;
                 let r = guard(|| match Cert::decode(der.as_slice()) {
-                    Ok(c) => c.validate_ta_at(tal(), true, time(t)).map(|_| ()).map_err(|e| e.to_string()),
+                    Ok(c) => c.validate_ta_at(tal(), true, tt).map(|_| ()).map_err(|e| e.to_string()),
                     Err(e) => Err(format!("decode: {e}")),
                 });
                 match r {
@@ -461,7 +531,7 @@ fn main() {
             }
         });
         sp.sample_str(|| "res=(0,1,0) signed_by=self aki=absent ski=hash t=inside -> rejected (inherit in TA)".into());
-        sp.done(true, "27 resource shapes x 2 x 3 x 2 x 5 instants");
+        sp.done(true, "27 resource shapes x 2 x 3 x 2 x 10 instants");
     }
 
     //---------------------------------------------------------------- depth 3
@@ -535,7 +605,7 @@ fn main() {
             // bound 0: the unmodified certificate is accepted in both modes
             for strict in [true, false] {
                 let c = Cert::decode(der.as_slice()).unwrap();
-                if let Err(e) = validate(*kind, c, issuer, strict, T0) {
+                if let Err(e) = validate(*kind, c, issuer, strict, time(T0)) {
                     ctx.fail("C01.tamper.baseline", format!("kind={} strict={strict}", kind_name(*kind)), e);
                 }
             }
@@ -559,7 +629,7 @@ fn main() {
                         let c = if strict { Cert::decode(m.as_slice()) } else {
                             bcder::Mode::Ber.decode(m.as_slice(), Cert::take_from)
                         };
-                        match c { Err(_) => Err("decode".to_string()), Ok(c) => validate(*kind, c, issuer, strict, T0).map(|_| ()).map_err(|_| "validate".to_string()) }
+                        match c { Err(_) => Err("decode".to_string()), Ok(c) => validate(*kind, c, issuer, strict, time(T0)).map(|_| ()).map_err(|_| "validate".to_string()) }
                     });
                     match r {
                         Err(p) => ctx.fail("C01.tamper.nopanic", wit(), p),
